@@ -8,20 +8,22 @@
 import Rl.Lemmas.EditorSafe2
 import Rl.Lemmas.EditorGrow
 import Rl.Lemmas.EditorLoops
+import Rl.Lemmas.EditorNextAll
 import Rl.Props.C09
 namespace Rl
 open EM
 
-/-- the invariant of a read at every command boundary -/
-def RdInv (cfg : EdCfg) (s : Ed) : Prop := EdWF cfg s ∧ s.line.canGrow = true
+/-- the invariant of a read at every command boundary: `EdWF`, a growable line, and (vi) a pending
+    numeric argument that is not negative -/
+def RdInv (cfg : EdCfg) (s : Ed) : Prop := EdWF cfg s ∧ (s.line.canGrow = true ∧ NumI cfg s)
 
-/-- post- and exit-condition: invariant again, never the panic outcome -/
+/-- exit condition: the only panic is known finding D43 (`RepeatCount::try_from(len).unwrap()` on
+    the length of the last insertion), and the state it exits with shows it -/
+def PE (o : Outcome) (s : Ed) : Prop := o = .panic → D43 s
+
+/-- post- and exit-condition: invariant again; a panic exit only as D43 -/
 abbrev RSafe {α : Type} (cfg : EdCfg) (m : EM α) (s : Ed) : Prop :=
-  wp m (fun _ s' => RdInv cfg s') (fun o _ => o ≠ .panic) s
-
-/-- `next_cmd` never exits with the panic outcome -/
-def NextSafe (S : Segmenter) (U : UData) (cfg : EdCfg) : Prop :=
-  ∀ fuel sea iep s o s', nextCmd S U cfg fuel sea iep s = .error (o, s') → o ≠ .panic
+  wp m (fun _ s' => RdInv cfg s') PE s
 
 /-- every `execute` step is safe from the read invariant -/
 def ExecSafe (S : Segmenter) (U : UData) (cfg : EdCfg) : Prop :=
@@ -30,58 +32,86 @@ def ExecSafe (S : Segmenter) (U : UData) (cfg : EdCfg) : Prop :=
 /-- what the loops assume -/
 structure RdHyp (S : Segmenter) (U : UData) (cfg : EdCfg) : Prop where
   hnp : cfg.hinterPanicAt = none
-  next : NextSafe S U cfg
   exec : ExecSafe S U cfg
   /-- the completer contract: the reported start is a character boundary of the line, not beyond
       the cursor -/
   comp : ∀ t p, IsBoundary t (cfg.completer t p).1 ∧ (cfg.completer t p).1 ≤ p
 
+theorem PE.of_ne {o : Outcome} {s : Ed} (h : o ≠ .panic) : PE o s := fun hp => absurd hp h
+
 section
 variable (S : Segmenter) (U : UData) (cfg : EdCfg)
 
-theorem RdInv.of_core {s s' : Ed} (h : RdInv cfg s) (hc : s'.core = s.core) : RdInv cfg s' := by
-  refine ⟨h.1.of_core hc, ?_⟩
-  rw [(Ed.core_eq hc).1]; exact h.2
-
-theorem RdInv.of_coreNC {s s' : Ed} (h : RdInv cfg s) (hc : s'.coreNC = s.coreNC) : RdInv cfg s' := by
-  refine ⟨h.1.of_coreNC hc, ?_⟩
-  rw [(Ed.coreNC_eq hc).1]; exact h.2
+theorem RdInv.of_core {s s' : Ed} (h : RdInv cfg s) (hc : s'.core = s.core) (hi : s'.inp = s.inp) :
+    RdInv cfg s' := by
+  refine ⟨h.1.of_core hc, ?_, ?_⟩
+  · rw [(Ed.core_eq hc).1]; exact h.2.1
+  · intro hv; rw [hi]; exact h.2.2 hv
 
 theorem wp_refreshLine_inv (hnp : cfg.hinterPanicAt = none) {s : Ed} (h : RdInv cfg s)
     {Q : Unit → Ed → Prop} {E : Outcome → Ed → Prop} (hq : ∀ s', RdInv cfg s' → s'.core = s.core → Q () s') :
-    wp (refreshLine S U cfg) Q E s :=
-  wp_refreshLine_np S U cfg hnp fun s' hc => hq s' (h.of_core cfg hc) hc
+    wp (refreshLine S U cfg) Q E s := by
+  have hw := wp_refreshLine_np S U cfg hnp (Q := fun _ s' => s'.core = s.core) (E := fun _ _ => False) (s := s)
+    (fun _ hc => hc)
+  have hk := (keeps_inp_refreshLine S U cfg).h s
+  unfold wp at hw ⊢
+  cases hr : refreshLine S U cfg s with
+  | error e => rw [hr] at hw; exact hw.elim
+  | ok r =>
+    obtain ⟨_, s'⟩ := r
+    rw [hr] at hw hk
+    exact hq s' (h.of_core cfg hw hk) hw
 
 theorem wp_refreshPromptAndLine_inv (hnp : cfg.hinterPanicAt = none) (p : Text) {s : Ed} (h : RdInv cfg s)
     {Q : Unit → Ed → Prop} {E : Outcome → Ed → Prop} (hq : ∀ s', RdInv cfg s' → s'.core = s.core → Q () s') :
-    wp (refreshPromptAndLine S U cfg p) Q E s :=
-  wp_refreshPromptAndLine S U cfg (fun s' hc => hq s' (h.of_core cfg hc) hc) (fun _ _ hne => absurd hnp hne)
+    wp (refreshPromptAndLine S U cfg p) Q E s := by
+  have hw := wp_refreshPromptAndLine S U cfg (p := p) (Q := fun _ s' => s'.core = s.core) (E := fun _ _ => False)
+    (s := s) (fun _ hc => hc) (fun _ _ hne => absurd hnp hne)
+  have hk := (keeps_inp_refreshPromptAndLine S U cfg p).h s
+  unfold wp at hw ⊢
+  cases hr : refreshPromptAndLine S U cfg p s with
+  | error e => rw [hr] at hw; exact hw.elim
+  | ok r =>
+    obtain ⟨_, s'⟩ := r
+    rw [hr] at hw hk
+    exact hq s' (h.of_core cfg hw hk) hw
 
-theorem wp_nextCmd_inv (hN : NextSafe S U cfg) {fuel : Nat} {sea iep : Bool} {s : Ed} (h : RdInv cfg s)
+theorem wp_moveCursor_inv {s : Ed} (h : RdInv cfg s)
+    {Q : Unit → Ed → Prop} {E : Outcome → Ed → Prop} (hq : ∀ s', RdInv cfg s' → s'.core = s.core → Q () s') :
+    wp (moveCursor S U cfg) Q E s := by
+  obtain ⟨s', hr, hc⟩ := moveCursor_returns S U cfg s
+  have hk := (keeps_inp_moveCursor S U cfg).ok hr
+  exact wp_of_eq_ok hr (hq s' (h.of_core cfg hc hk) hc)
+
+/-- `next_cmd` from the read invariant: it keeps it, and panics only as D43 -/
+theorem wp_nextCmd_inv (hnp : cfg.hinterPanicAt = none) {fuel : Nat} {sea iep : Bool} {s : Ed} (h : RdInv cfg s)
     {Q : Cmd → Ed → Prop} (hq : ∀ c s', RdInv cfg s' → s'.coreNC = s.coreNC → Q c s') :
-    wp (nextCmd S U cfg fuel sea iep) Q (fun o _ => o ≠ .panic) s := by
+    wp (nextCmd S U cfg fuel sea iep) Q PE s := by
   have hk := (keeps_nextCmd S U cfg fuel sea iep).h s
+  have hn := (npi_nextCmd S U cfg hnp fuel sea iep).h s h.2.2
   unfold wp
   cases hr : nextCmd S U cfg fuel sea iep s with
-  | error e => obtain ⟨o, s'⟩ := e; exact hN _ _ _ _ _ _ hr
+  | error e => obtain ⟨o, s'⟩ := e; rw [hr] at hn; exact hn
   | ok r =>
     obtain ⟨c, s'⟩ := r
-    rw [hr] at hk
-    exact hq c s' (h.of_coreNC cfg hk) hk
+    rw [hr] at hk hn
+    refine hq c s' ⟨h.1.of_coreNC hk, ?_, hn⟩ hk
+    rw [(Ed.coreNC_eq hk).1]; exact h.2.1
 
 /-- a safe, `canGrow`-preserving line-buffer call keeps the read invariant -/
 theorem wp_lb_inv {α : Type} {op : LM α} (hop : LMSafe op) (hg : Grow op) {s : Ed} (h : RdInv cfg s)
     {Q : α → Ed → Prop} {E : Outcome → Ed → Prop} (hq : ∀ a s', RdInv cfg s' → Q a s') : wp (lb S U op) Q E s := by
   obtain ⟨r, l, ns, ho, hw⟩ := hop s.line h.1.line
-  refine wp_lb S U ho (hq _ _ ⟨EdWF.mk' hw h.1.saved h.1.ring, ?_⟩)
-  exact (hg.h _ _ _ _ ho).trans h.2
+  refine wp_lb S U ho (hq _ _ ⟨EdWF.mk' hw h.1.saved h.1.ring, ?_, ?_⟩)
+  · exact (hg.h _ _ _ _ ho).trans h.2.1
+  · exact h.2.2
 
 /-- `line.update(buf, pos)` on the growable line of a read: exactly that text and cursor -/
 theorem wp_lb_update_inv {b : Text} {p : Nat} (hb : IsBoundary b p) {s : Ed} (h : RdInv cfg s)
     {Q : Unit → Ed → Prop} {E : Outcome → Ed → Prop}
     (hq : ∀ s', RdInv cfg s' → s'.line.buf = b → s'.line.pos = p → Q () s') :
     wp (lb S U (LB.update S U b p)) Q E s := by
-  refine wp_lb_update S U h.2 hb.le_len (hq _ ⟨EdWF.mk' ?_ h.1.saved h.1.ring, h.2⟩ rfl rfl)
+  refine wp_lb_update S U h.2.1 hb.le_len (hq _ ⟨EdWF.mk' ?_ h.1.saved h.1.ring, h.2⟩ rfl rfl)
   exact hb
 
 /-- `line.replace(start..pos, text)` for a start on a boundary at or before the cursor: the start is
@@ -137,7 +167,7 @@ theorem safe_completeCircular (H : RdHyp S U cfg) (start : Nat) (cands : List Te
     all_goals
       refine wp_refreshLine_inv S U cfg H.hnp h1 fun s2 h2 hc2 => ?_
       obtain ⟨l2, _⟩ := Ed.core_eq hc2
-      refine wp_nextCmd_inv S U cfg H.next h2 fun cmd s3 h3 hc3 => ?_
+      refine wp_nextCmd_inv S U cfg H.hnp h2 fun cmd s3 h3 hc3 => ?_
       obtain ⟨l3, _⟩ := Ed.coreNC_eq hc3
       have hb3 : IsBoundary s3.line.buf start := by rw [l3, l2]; exact hb1
       have hle3 : start ≤ s3.line.pos := by rw [l3, l2]; exact hle1
@@ -187,46 +217,45 @@ theorem safe_completeLine (H : RdHyp S U cfg) (fuel : Nat) {s : Ed} (h : RdInv c
                   lbQuiet (LB.setPosChecked S U savePos)
                   refreshLine S U cfg
                   pure none)
-            (fun _ s' => RdInv cfg s') (fun o _ => o ≠ .panic) s1 := by
+            (fun _ s' => RdInv cfg s') PE s1 := by
         intro s1 h1
         split
         · exact h1
         · rw [wp_bind]
-          refine wp_nextCmd_inv S U cfg H.next h1 fun cmd s2 h2 _ => ?_
+          refine wp_nextCmd_inv S U cfg H.hnp h1 fun cmd s2 h2 _ => ?_
           split
           · exact h2
           · rw [wp_bind', wp_read]
             unfold editMove
             simp only [wp_bind]
             obtain ⟨r, l, hm, hw, hbuf⟩ := C03_moveEnd_total_wf S U s2.line h2.1.line
-            have hg : l.canGrow = true := ((Grow.moveEnd S U).h _ _ _ _ hm).trans h2.2
+            have hg : l.canGrow = true := ((Grow.moveEnd S U).h _ _ _ _ hm).trans h2.2.1
             refine wp_lbQuiet hm ?_
-            have h3 : RdInv cfg ({ s2 with line := l } : Ed) := ⟨EdWF.mk' hw h2.1.saved h2.1.ring, hg⟩
+            have h3 : RdInv cfg ({ s2 with line := l } : Ed) := ⟨EdWF.mk' hw h2.1.saved h2.1.ring, hg, h2.2.2⟩
             have hsp : IsBoundary l.buf s2.line.pos := by rw [hbuf]; exact h2.1.line
             -- after the optional cursor move (display only) the line is still `l`
-            have after : ∀ s4 : Ed, s4.core = ({ s2 with line := l } : Ed).core →
+            have after : ∀ s4 : Ed, RdInv cfg s4 → s4.core = ({ s2 with line := l } : Ed).core →
                 wp (do lbQuiet (LB.setPosChecked S U s2.line.pos); refreshLine S U cfg; pure (none : Option Cmd))
-                  (fun _ s' => RdInv cfg s') (fun o _ => o ≠ .panic) s4 := by
-              intro s4 hc4
-              have h4 : RdInv cfg s4 := RdInv.of_core cfg h3 hc4
+                  (fun _ s' => RdInv cfg s') PE s4 := by
+              intro s4 h4 hc4
               obtain ⟨l4, _⟩ := Ed.core_eq hc4
               simp only [wp_bind]
               have hsp4 : IsBoundary s4.line.buf s2.line.pos := by rw [l4]; exact hsp
               obtain ⟨l5, hs5, hw5, _⟩ := C03_setPos_total_wf S U s2.line.pos s4.line hsp4
-              have hg5 : l5.canGrow = true := ((Grow.setPosChecked S U _).h _ _ _ _ hs5).trans h4.2
+              have hg5 : l5.canGrow = true := ((Grow.setPosChecked S U _).h _ _ _ _ hs5).trans h4.2.1
               refine wp_lbQuiet hs5 ?_
-              have h5 : RdInv cfg ({ s4 with line := l5 } : Ed) := ⟨EdWF.mk' hw5 h4.1.saved h4.1.ring, hg5⟩
+              have h5 : RdInv cfg ({ s4 with line := l5 } : Ed) := ⟨EdWF.mk' hw5 h4.1.saved h4.1.ring, hg5, h4.2.2⟩
               exact wp_refreshLine_inv S U cfg H.hnp h5 fun s6 h6 _ => h6
             cases r with
             | true =>
               simp only [if_true]
-              refine wp_moveCursor S U cfg fun s4 hc4 => ?_
-              have t := after s4 hc4
+              refine wp_moveCursor_inv S U cfg h3 fun s4 h4 hc4 => ?_
+              have t := after s4 h4 hc4
               simp only [wp_bind, wp_pure] at t ⊢
               exact t
             | false =>
               simp only [Bool.false_eq_true, if_false, wp_pure]
-              have t := after _ rfl
+              have t := after _ h3 rfl
               simp only [wp_bind, wp_pure] at t ⊢
               exact t
       cases hl : lcpChars (cfg.completer s.line.buf s.line.pos).2 with
@@ -268,14 +297,14 @@ theorem safe_searchLoop (H : RdHyp S U cfg) (mark : Nat) (backup : Text) (backup
     unfold RSafe searchLoop
     simp only [wp_bind]
     refine wp_refreshPromptAndLine_inv S U cfg H.hnp _ h fun s2 h2 _ => ?_
-    refine wp_nextCmd_inv S U cfg H.next h2 fun cmd s3 h3 _ => ?_
+    refine wp_nextCmd_inv S U cfg H.hnp h2 fun cmd s3 h3 _ => ?_
     have hds : ∀ (sb : Text) (hi : Nat) (d : Dir),
         wp (match (memHist cfg).search sb hi d with
             | some (idx, entry, pos) => do
               lb S U (LB.update S U entry pos)
               searchLoop S U cfg mark backup backupPos fuel sb idx d true
             | none => searchLoop S U cfg mark backup backupPos fuel sb hi d false)
-          (fun _ s' => RdInv cfg s') (fun o _ => o ≠ .panic) s3 := by
+          (fun _ s' => RdInv cfg s') PE s3 := by
       intro sb hi d
       cases hs : (memHist cfg).search sb hi d with
       | none => exact ih _ _ _ _ s3 h3
@@ -343,30 +372,30 @@ theorem safe_preCmds (H : RdHyp S U cfg) : ∀ (fuel : Nat) (cmd : Cmd) (s : Ed)
         | some next => exact ih next s1 h1
       · exact h
 
-/-- `EdWF` safety plus the `canGrow` frame give safety for the read invariant -/
+/-- `EdWF` safety plus the `canGrow` and input-state frames give safety for the read invariant -/
 theorem rsafe_of {α : Type} {m : EM α} {s : Ed} (h1 : Safe cfg m s) (hk : Keeps Ed.grow m)
-    (hg : s.line.canGrow = true) : RSafe cfg m s := by
+    (hi : Keeps Ed.inpOf m) (h : RdInv cfg s) : RSafe cfg m s := by
   have h2 := hk.h s
+  have h3 := hi.h s
   unfold RSafe Safe wp at *
   cases hr : m s with
-  | error e => rw [hr] at h1; exact h1
+  | error e => rw [hr] at h1; exact PE.of_ne h1
   | ok r =>
-    rw [hr] at h1 h2
-    exact ⟨h1, by have : r.2.line.canGrow = s.line.canGrow := h2; rw [this]; exact hg⟩
+    rw [hr] at h1 h2 h3
+    refine ⟨h1, ?_, ?_⟩
+    · have : r.2.line.canGrow = s.line.canGrow := h2
+      rw [this]; exact h.2.1
+    · intro hv
+      have : r.2.inp = s.inp := h3
+      rw [this]; exact h.2.2 hv
 
 theorem safe_editInsert_inv (hnp : cfg.hinterPanicAt = none) (c : Char) (n : Nat) {s : Ed} (h : RdInv cfg s) :
-    RSafe cfg (editInsert S U cfg c n) s := by
-  have h1 := safe_editInsert S U cfg hnp c n h.1
-  have h2 := (keeps_grow_editInsert S U cfg c n).h s
-  unfold RSafe Safe wp at *
-  cases hr : editInsert S U cfg c n s with
-  | error e => rw [hr] at h1; exact h1
-  | ok r =>
-    rw [hr] at h1 h2
-    exact ⟨h1, by have : r.2.line.canGrow = s.line.canGrow := h2; rw [this]; exact h.2⟩
+    RSafe cfg (editInsert S U cfg c n) s :=
+  rsafe_of cfg (safe_editInsert S U cfg hnp c n h.1) (keeps_grow_editInsert S U cfg c n)
+    (keeps_inp_editInsert S U cfg c n) h
 
 theorem wp_nextChar_inv {s : Ed} (h : RdInv cfg s) {Q : Char → Ed → Prop}
-    (hq : ∀ c s', RdInv cfg s' → Q c s') : wp nextChar Q (fun o _ => o ≠ .panic) s := by
+    (hq : ∀ c s', RdInv cfg s' → Q c s') : wp nextChar Q PE s := by
   unfold wp nextChar
   cases hi : s.input.nextChar with
   | ok r => exact hq _ _ ⟨EdWF.mk' h.1.line h.1.saved h.1.ring, h.2⟩
@@ -385,7 +414,7 @@ theorem safe_mainLoop (H : RdHyp S U cfg) : ∀ (fuel : Nat) (s : Ed), RdInv cfg
     intro s h
     unfold RSafe mainLoop
     rw [wp_bind]
-    refine wp_nextCmd_inv S U cfg H.next h fun cmd0 s1 h1 _ => ?_
+    refine wp_nextCmd_inv S U cfg H.hnp h fun cmd0 s1 h1 _ => ?_
     -- resetting the ring's last action keeps the invariant
     have hreset : ∀ s1 : Ed, RdInv cfg s1 → RdInv cfg { s1 with ring := s1.ring.reset } :=
       fun s1 h1 => ⟨EdWF.mk' h1.1.line h1.1.saved (RingOK.reset h1.1.ring), h1.2⟩
@@ -406,7 +435,7 @@ theorem safe_mainLoop (H : RdHyp S U cfg) : ∀ (fuel : Nat) (s : Ed), RdInv cfg
               match ← execute S U cfg cmd with
               | .proceed => mainLoop S U cfg fuel
               | .submit => pure ())
-          (fun _ s' => RdInv cfg s') (fun o _ => o ≠ .panic) s2 := by
+          (fun _ s' => RdInv cfg s') PE s2 := by
       intro s2 h2
       rw [wp_bind]
       refine wp_mono (safe_preCmds S U cfg H fuel cmd0 s2 h2) ?_ (fun _ _ h => h)
@@ -444,29 +473,31 @@ theorem safe_mainLoop (H : RdHyp S U cfg) : ∀ (fuel : Nat) (s : Ed), RdInv cfg
 
 /-! ### the whole read -/
 
-theorem readline_no_panic (H : RdHyp S U cfg) (ring : KillRing) (hr : RingOK ring) (left right : Text)
-    (input : Input) : (readline S U cfg ring left right input).1 ≠ .panic := by
+/-- **the only panic of a whole read is D43**, and the state the read ends with exhibits it -/
+theorem readline_panic_only_D43 (H : RdHyp S U cfg) (ring : KillRing) (hr : RingOK ring) (left right : Text)
+    (input : Input) :
+    (readline S U cfg ring left right input).1 = .panic → D43 (readline S U cfg ring left right input).2 := by
   have h0 : RdInv cfg (initEd cfg ring input) :=
-    ⟨⟨isBoundary_zero _, isBoundary_zero _, hr.reset⟩, rfl⟩
+    ⟨⟨isBoundary_zero _, isBoundary_zero _, hr.reset⟩, rfl, fun _ => Int.le_refl 0⟩
   have hw : wp (do
       if !(left.isEmpty && right.isEmpty) then
         lb S U (LB.update S U (left ++ right) (blen left))
       refreshLine S U cfg
       mainLoop S U cfg (input.size + 2)
       editMove S U cfg (LB.moveBufferEnd S U) : EM Unit)
-      (fun _ _ => True) (fun o _ => o ≠ .panic) (initEd cfg ring input) := by
+      (fun _ _ => True) PE (initEd cfg ring input) := by
     have rest : ∀ s1 : Ed, RdInv cfg s1 →
         wp (do
           refreshLine S U cfg
           mainLoop S U cfg (input.size + 2)
           editMove S U cfg (LB.moveBufferEnd S U) : EM Unit)
-        (fun _ _ => True) (fun o _ => o ≠ .panic) s1 := by
+        (fun _ _ => True) PE s1 := by
       intro s1 h1
       simp only [wp_bind]
       refine wp_refreshLine_inv S U cfg H.hnp h1 fun s2 h2 _ => ?_
       refine wp_mono (safe_mainLoop S U cfg H _ s2 h2) ?_ (fun _ _ h => h)
       intro _ s3 h3
-      exact wp_mono (safe_editMove S U cfg (lmsafe_moveBufferEnd S U) h3.1) (fun _ _ _ => trivial) (fun _ _ h => h)
+      exact wp_mono (safe_editMove S U cfg (lmsafe_moveBufferEnd S U) h3.1) (fun _ _ _ => trivial) (fun _ _ h => PE.of_ne h)
     simp only []
     split
     · have hb : IsBoundary (left ++ right) (blen left) := isBoundary_mid left right
@@ -485,7 +516,14 @@ theorem readline_no_panic (H : RdHyp S U cfg) (ring : KillRing) (hr : RingOK rin
   · intro hh; cases hh
   · rename_i o s hp
     rw [hp] at hw
-    exact hw
+    intro ho
+    exact hw ho
+
+/-- corollary: a read in which no over-long last insertion is ever re-done does not panic -/
+theorem readline_no_panic (H : RdHyp S U cfg) (ring : KillRing) (hr : RingOK ring) (left right : Text)
+    (input : Input) (hd : ¬ D43 (readline S U cfg ring left right input).2) :
+    (readline S U cfg ring left right input).1 ≠ .panic :=
+  fun hp => hd (readline_panic_only_D43 S U cfg H ring hr left right input hp)
 
 end
 end Rl
